@@ -116,6 +116,19 @@ CHECKS = {
         note="Modulo the linregress lemma, accessor contracts (C03) and adsorbate getter contracts; exp/ln uninterpreted with axioms; "
              "interpolation accuracy on densely sampled point isotherms is not decided here.",
         technique="symbolic execution of the real functions + z3 with linregress/adsorbate/isotherm contract stubs; sympy lemma"),
+    'C09': dict(
+        category='fault_enumeration',
+        text="Every public write operation of the store runs on a real database file behind a recording, fault-injecting sqlite3 proxy; "
+             "the space {operation} x {statement position k} x {IntegrityError, InterfaceError, OperationalError at k, death before/after "
+             "k} plus {OperationalError, death before/after} at commit is enumerated exhaustively. After each fault an independent "
+             "connection (sqlite performs its own crash recovery on the copied file+journal) must see the pre-state or the complete "
+             "effect -- the latter only after commit -- and the operation must be repeatable. The transaction protocol (one connection, "
+             "one cursor, single commit after the body, none after a failure, nested calls share the cursor) is an obligation on every "
+             "trace and, statically, on every decorated body.",
+        design_ref='§3 C09, §2.6',
+        note="Single-fault hypothesis; sqlite journal semantics trusted (real library used); death emulated in-process by snapshotting "
+             "file+journal (thorough tier adds real os._exit subprocess runs); prior content of the database: two fixed layouts.",
+        technique="exhaustive fault enumeration on the real code with transaction-protocol contracts checked per trace + static body contracts"),
 }
 
 NOT_YET = {
